@@ -14,7 +14,8 @@ CHECKS = {
                           ("harness.matching", "C02_ClearingRound"), ("harness.matching", "C02_Continuous")],
             "post": ("harness.xcheck", "post_c02")},
     "C04": {"harnesses": [("harness.ophistory", "C04_OpHistory"), ("harness.ophistory", "C04_NegativeOps"),
-                          ("harness.runs", "C04_Spoofing"), ("harness.runs", "C04_HookWrittenVolume")]},
+                          ("harness.runs", "C04_Spoofing"), ("harness.runs", "C04_HookWrittenVolume"),
+                          ("harness.runs", "C04_LifetimeInRun")]},
     "C05": {"harnesses": [("harness.runs", "C05_RunnerBasics")]},
     "C09": {"harnesses": [("harness.sessions", "C09_SessionRules")]},
     "C10": {"harnesses": [("harness.runs", "C10_RunnerBasics")]},
@@ -63,7 +64,7 @@ META = {
                       "3 orders for the laws; books of <= 4 orders per side with up to 2 disturbing operations (thorough <= 7)."), "note": _N + "; the thorough tier cross-checks the comparison laws with CrossHair"},
  "C03": {"level": _lv("the post-round predicate and absence of exceptions for real rounds from arbitrary books, along operation histories and around trading halts in real runs.",
                       "as C01/C04; market orders on both sides included."), "note": _N},
- "C04": {"level": _lv("operation histories on one real Market (every agent program within the length bound), refused operations, spoofed submissions through the real runner.",
+ "C04": {"level": _lv("operation histories on one real Market (every agent program within the length bound), refused operations, spoofed submissions through the real runner, time-to-live across sessions without placement/execution, volumes written by an event before acceptance.",
                       "<= 3 operations after an opening order, 2-3 orders accumulated while not running + 1 operation, fixed long expiry skeletons (thorough: 4 operations)."), "note": _N},
  "C05": {"level": _lv("real SequentialRunner runs with scripted agents; holdings compared with the endowment folded with the fill records at every callback, activation and at the end.",
                       "<= 3 agents, <= 2 markets, <= 4 steps in 12 run families."), "note": _N},
